@@ -219,6 +219,12 @@ func (w *worker) runInstance(req *InstanceReq) (res *InstanceResult) {
 
 func (w *worker) runPath(x *Explorer, fn *ssa.Function, args []value, script []decision, req *InstanceReq) {
 	res := x.inst
+	if len(x.solver.sent) > 4000 {
+		// definitions accumulate in the solver (global declarations); start afresh now and then
+		st := x.solver.stats
+		x.solver.reset()
+		x.solver.stats = st
+	}
 	x.beginPath(script)
 	I = newInterp(w.prog, w.pkg, x)
 	if req.MaxSteps > 0 {
